@@ -263,6 +263,10 @@ func c01BigCap(c *core.Ctx, idx int) {
 			cfg.Cap = r.Range(1<<20-5, 1<<20+4000)
 		}
 	}
+	target := cfg.Cap
+	if r.Chance(1, 3) {
+		cfg.Cap = 0 // the same number of values in a stack without any capacity
+	}
 	s, m := cfg.Build()
 	var log []string
 	fail := func(op LOp, a, d string) {
@@ -303,11 +307,11 @@ func c01BigCap(c *core.Ctx, idx int) {
 		return spot(op)
 	}
 	ok := true
-	for !m.Full() && ok {
+	for m.Len() < target && ok {
 		k := r.Range(1, 9000)
 		if r.Chance(1, 3) {
 			k = r.Range(1, 40)
-			if room := cfg.Cap - m.Len(); room > 200 {
+			if room := target - m.Len(); room > 200 {
 				k = room - r.Range(0, 3) // right up to the brim, or just short of it
 			}
 		}
@@ -322,6 +326,15 @@ func c01BigCap(c *core.Ctx, idx int) {
 	}
 	if ok {
 		ok = step(LOp{K: "Insert", Vals: []any{next()}, I: r.Intn(m.Len())}) // full: refused
+	}
+	if ok && r.Chance(1, 2) {
+		ok = step(LOp{K: "Reverse"})
+	}
+	if ok && r.Chance(1, 2) {
+		ok = step(LOp{K: "Swap", I: r.Intn(m.Len()), J: m.Len() - 1 - r.Intn(3)})
+	}
+	if ok && r.Chance(1, 2) {
+		ok = step(LOp{K: "Replace", Vals: []any{next()}, I: []int{65535, 65536, m.Len() - 1, 32768}[r.Intn(4)] % m.Len()})
 	}
 	for i := 0; i < 3 && ok; i++ {
 		ok = step(LOp{K: "Pop"})
